@@ -24,6 +24,8 @@ enum Q {
     E(usize),
     N,
     H,
+    /// semantic hash under a hand-made normalised map: high weights given, low = 1 - high (mod P)
+    G(Vec<u64>),
     M(Vec<usize>, Vec<(u64, u64)>),
     S,
     C(usize, bool),
@@ -37,6 +39,7 @@ impl Q {
             Q::E(a) => format!("E{}", a),
             Q::N => "N".to_string(),
             Q::H => "H".to_string(),
+            Q::G(w) => format!("G{}", w.iter().map(|k| k.to_string()).collect::<Vec<_>>().join("_")),
             Q::M(q, w) => format!(
                 "M{}/{}",
                 q.iter().map(|k| k.to_string()).collect::<Vec<_>>().join("_"),
@@ -73,6 +76,14 @@ fn answer<'a>(b: &'a RobddBuilder<'a, AllIteTable<BddPtr<'a>>>, d: BddPtr<'a>, n
         }
         Q::N => d.count_nodes().to_string(),
         Q::H => d.semantic_hash(&create_semantic_hash_map::<{ primes::U64_LARGEST }>(n)).value().to_string(),
+        Q::G(w) => {
+            const P: u128 = primes::U64_LARGEST;
+            let mut m = HashMap::new();
+            for (i, k) in w.iter().enumerate() {
+                m.insert(VarLabel::new_usize(i), (FiniteField::<P>::new(P + 1 - *k as u128), FiniteField::<P>::new(*k as u128)));
+            }
+            d.semantic_hash(&WmcParams::new(m)).value().to_string()
+        }
         Q::M(q, w) => {
             let mut m = HashMap::new();
             for (i, (l, h)) in w.iter().enumerate() {
@@ -442,7 +453,8 @@ pub fn query_line(rng: &mut Rng, maxvars: usize, maxops: usize) -> String {
     let qs: Vec<(usize, Q)> = (0..nq)
         .map(|_| {
             let i = if nderived > 0 && rng.chance(1, 2) { DERIVED + rng.below(nderived as u64) as usize } else { *rng.pick(&big) };
-            let q = match rng.below(8) {
+            let q = match rng.below(9) {
+                8 => Q::G((0..n).map(|_| 2 + rng.below(1000)).collect()),
                 0 => Q::W((0..n).map(|_| (rng.below(5) as u128, rng.below(5) as u128)).collect()),
                 1 => Q::R((0..n).map(|_| rng.below(9)).collect()),
                 2 => Q::E(rng.below(1 << n) as usize),
